@@ -91,14 +91,14 @@ void pbt_generate(Rng& r, int size, Case& c) {
   for (int i = 0; i < 4; ++i) if (r.chance(70)) c.add("mkfile", i, 0, 0, 0, rbytes(r, r.chance(20) ? 0 : 40));
   if (r.chance(85)) c.add("mkdir", 6);
   if (r.chance(20)) c.add("mkdir", 7);
-  static const char* names[] = {"open", "close", "write", "writes", "read", "readall", "seek", "size", "tell", "copy", "rename", "unlink", "exists", "sreadall", "mkfile", "mkdir"};
-  static const int w[] = {16, 5, 12, 4, 8, 5, 8, 3, 3, 9, 9, 4, 4, 4, 2, 1};
+  static const char* names[] = {"open", "close", "write", "writes", "read", "readall", "seek", "size", "tell", "copy", "rename", "unlink", "exists", "sreadall", "mkfile", "mkdir", "copyalias"};
+  static const int w[] = {16, 5, 12, 4, 8, 5, 8, 3, 3, 9, 9, 4, 4, 4, 2, 1, 2};
   int nops = 1 + (int)r.below((uint64_t)(size < 1 ? 1 : size));
   auto name = [&]() -> long { return r.chance(82) ? (long)r.below(NFLAT) : 8 + (long)r.below(2); };
   bool guess[NH] = {false, false, false};   // handles the generator believes to be open (only steers the choice; the interpreter decides)
   auto handle = [&]() -> long { if (r.chance(85)) { int n = 0, pick[NH]; for (int i = 0; i < NH; ++i) if (guess[i]) pick[n++] = i; if (n) return pick[r.below((uint64_t)n)]; } return (long)r.below(NH); };
   for (int k = 0; k < nops; ++k) {
-    int o = r.weighted(w, 16);
+    int o = r.weighted(w, 17);
     std::string nm = names[o];
     if (o >= 1 && o <= 8 && !guess[0] && !guess[1] && !guess[2] && r.chance(80)) { o = 0; nm = "open"; }
     if (nm == "open") { long hi = r.chance(75) ? [&]() { for (int i = 0; i < NH; ++i) if (!guess[i]) return (long)i; return (long)r.below(NH); }() : (long)r.below(NH); guess[hi] = true; c.add("open", hi, name(), (long)r.below(16)); }
@@ -108,6 +108,7 @@ void pbt_generate(Rng& r, int size, Case& c) {
     else if (nm == "seek") c.add("seek", handle(), r.range(-30, 60), (long)r.below(3));
     else if (nm == "copy" || nm == "rename") c.add(names[o], name(), name(), (long)r.below(2), nm == "copy" && r.chance(30) ? (long)(1 + r.below(40)) : 0L);
     else if (nm == "unlink" || nm == "exists" || nm == "sreadall") c.add(names[o], name());
+    else if (nm == "copyalias") c.add("copyalias", name(), (long)r.below(2));
     else if (nm == "mkfile") c.add("mkfile", (long)r.below(NFLAT), 0, 0, 0, rbytes(r, 20));
     else if (nm == "mkdir") c.add("mkdir", (long)r.below(NFLAT));
     else c.add(names[o], handle());
@@ -359,6 +360,22 @@ void pbt_run(const Case& cs, Ctx& ctx) {
           for (int i = 0; i < NH; ++i) if (h[i].node == sn) ctx.label("copy_of_open_file");
         }
       }
+    }
+    else if (nm == "copyalias") {
+      // the destination is another name of the source itself (a symbolic link to it): whether the copy is refused or accepted, the
+      // source must keep its bytes and nothing else may change; the alias is removed again before the model is compared
+      Name s = nameOf(op.a[0]); NodeP sn = lookup(s); bool fie = umod(op.a[1], 2) == 1;
+      if (!sn || sn->dir) { ctx.count("skipped"); continue; }
+      std::string alias = root + "/zz_alias";
+      if (symlink(s.rel.c_str(), alias.c_str()) != 0) ctx.fail("harness:symlink", strerror(errno));
+      bool got = File::copy(L(full(s)), L(alias), fie);
+      ctx.label(got ? "copy_onto_alias_accepted" : "copy_onto_alias_refused");
+      std::string c; readFile(full(s), c);
+      if (c != sn->bytes) { char b[200]; snprintf(b, sizeof b, "copy('%s', <symbolic link to it>, failIfExists=%d) returned %s and left the source with %zu of its %zu bytes", s.rel.c_str(), (int)fie, got ? "true" : "false", c.size(), sn->bytes.size()); ::unlink(alias.c_str()); ctx.fail("fs-after-copy:content", b); }
+      struct stat st;
+      if (lstat(alias.c_str(), &st) == 0 && S_ISREG(st.st_mode)) { std::string c2; readFile(alias, c2); if (c2 != sn->bytes) { ::unlink(alias.c_str()); ctx.fail("fs-after-copy:content", "the alias became a regular file that does not hold the source's bytes"); } }
+      ::unlink(alias.c_str());
+      if (got) ok(); else failed("fail_copy");
     }
     else if (nm == "rename") {
       Name s = nameOf(op.a[0]), t = nameOf(op.a[1]); bool fie = umod(op.a[2], 2) == 1;
